@@ -37,7 +37,9 @@ META = {
   "binomial/truncated-exponential helper's shape, lock-step +-1 rows, and the full-data hand-off of the event-driven path "
   "(histories built only from executed events, rebuilt per node by _transform_to_node_history_), the requested initial condition "
   "is the one used (None-tests, never truthiness), a self-loop never creates an I-S link, and every event runs to the end of "
-  "the loop body (no `continue` past the clock).",
+  "the loop body (no `continue` past the clock). "
+  "Gillespie_SIR / Gillespie_SIS stamp the records of the initial condition with tmin, before the clock is advanced (R10t). "
+  "In every function reachable from the property's entry points no dict.fromkeys(keys, v) / [v]*n hands one mutable object or one random draw to all keys (SHARE).",
   "Not decided: that binomial + truncated exponential equals independent exponential clocks, any distributional equality, numeric rates.",
   "ast: symbolic rate expansion, exhaustive abstract case analysis of incremental set maintenance (R11), call-binding (R1), control-context facts (H-guard), class-invariant rules (R12)"),
  "C02": _m(
@@ -45,7 +47,9 @@ META = {
   "on recovery; for fast_SIS: recovery time assigned on every path before scheduling, transmission only before the source's "
   "recovery, re-scheduling of the (source, target) pair on every path (also when the target was already infected), a FRESH "
   "exponential after the target's recovery (memorylessness), role binding of queued events, queue discipline, +-1 rows; the "
-  "requested initial set is the one used; a self-loop never creates an I-S link; no `continue` past the clock.",
+  "requested initial set is the one used; a self-loop never creates an I-S link; no `continue` past the clock. "
+  "Gillespie_SIR / Gillespie_SIS stamp the records of the initial condition with tmin, before the clock is advanced (R10t). "
+  "In every function reachable from the property's entry points no dict.fromkeys(keys, v) / [v]*n hands one mutable object or one random draw to all keys (SHARE).",
   "Not decided: the memorylessness argument itself and all distributional content.",
   "ast: symbolic rate expansion, R11 case analysis, handler guard/role rules over control-context facts, R1, R13, R9"),
  "C03": _m(
@@ -63,7 +67,9 @@ META = {
   "reported time is dominated by t<tmax / passes myQueue.add's `time < tmax`, every expovariate rate is guarded against 0, "
   "no flag combination of a simulator entry point uses None or an unbound name, and in Gillespie_simple_contagion the "
   "move applied is the chosen transition's (candidate sets guarded by exactly the statuses of their key: no stale candidate); "
-  "in Gillespie_SIR/SIS the I-S link set is exact (R11, incl. self-loops), so no event fires on a non-susceptible node.",
+  "in Gillespie_SIR/SIS the I-S link set is exact (R11, incl. self-loops), so no event fires on a non-susceptible node. "
+  "An emptied weighted candidate set weighs exactly 0 whatever weight left last (R12.I6), so the generic loops stop at extinction instead of drawing from an empty list. "
+  "In every function reachable from the property's entry points no dict.fromkeys(keys, v) / [v]*n hands one mutable object or one random draw to all keys (SHARE).",
   "Not decided: monotonicity of time (non-negativity of run-time delays), termination with I=0.",
   "ast: path enumeration through event blocks (R9), control-context domination (R13, R17), flag-enumerating abstract interpreter (R2/R3)"),
  "C05": _m(
@@ -72,7 +78,9 @@ META = {
   "on initial_recovereds; initially recovered nodes are marked unconditionally before the status map is first read; initial "
   "history entries are at tmin; wrappers forward every initial-condition parameter to the same-named parameter (no crossing, "
   "no drop, on every branch); optional arguments with falsy legitimate values are never tested by truth value; node_status / "
-  "get_statuses (through which per-node statuses at tmin are read) count change times <= t.",
+  "get_statuses (through which per-node statuses at tmin are read) count change times <= t. "
+  "Gillespie_SIR / Gillespie_SIS stamp the records of the initial condition with tmin, before the clock is advanced (R10t). "
+  "In every function reachable from the property's entry points no dict.fromkeys(keys, v) / [v]*n hands one mutable object or one random draw to all keys (SHARE).",
   "Not decided: run-time truthiness of array-typed containers; per-node histories of a run.",
   "ast: guard-shape and ordering rules (R10), call-binding (R1), wrapper data-flow (R16w), parameter use (R16)"),
  "C06": _m(
@@ -91,7 +99,9 @@ META = {
   "exactly one record (event time, source, node whose status is written) is appended; queued events bind source := the node "
   "that was set infectious in the scheduling block and target := a neighbour of it (re-scheduling keeps the pair); Gillespie "
   "pairs are sampled I-S links (R11); source-less records occur only in loops over initial_infecteds; the discrete-time "
-  "infector is one of the nodes that infected v in that generation; transmissions()/transmission_tree() serve what was stored.",
+  "infector is one of the nodes that infected v in that generation; transmissions()/transmission_tree() serve what was stored. "
+  "Gillespie_SIR / Gillespie_SIS stamp the records of the initial condition with tmin, before the clock is advanced (R10t). "
+  "In every function reachable from the property's entry points no dict.fromkeys(keys, v) / [v]*n hands one mutable object or one random draw to all keys (SHARE).",
   "Not decided: forest shape and time ordering of the list (run-time).",
   "ast: constructor agreement (R8), record pairing on enumerated paths (R9.C09), handler role binding (H-role), R11"),
  "C10": _m(
@@ -100,7 +110,9 @@ META = {
   "only from executed events (status filters at the hand-off) and start at tmin; _transform_to_node_history_ resets the "
   "default entry for events at tmin in every loop; node_status and get_statuses both compute statuses[#(change times <= t) - 1]; "
   "summary applies +1/-1 at the change time; t/S/I/R read the summary; pred_inf_time (which becomes the history's infection "
-  "time) is lowered only together with a queued transmission.",
+  "time) is lowered only together with a queued transmission. "
+  "Gillespie_SIR / Gillespie_SIS stamp the records of the initial condition with tmin, before the clock is advanced (R10t). "
+  "In every function reachable from the property's entry points no dict.fromkeys(keys, v) / [v]*n hands one mutable object or one random draw to all keys (SHARE).",
   "Not decided: equality of reconstructed and running counts as numbers.",
   "ast: control dependence on return_full_data (R7c), history pairing (R9.C10), hand-off and sibling-shape rules"),
  "C11": _m(
@@ -109,7 +121,9 @@ META = {
   "with every Q.add, candidates are the susceptible neighbours; myQueue pushes only under time < tmax with (time, counter) "
   "keys; adapters bind user rules without crossing; percolation builders add every node and exactly the edges delay <= "
   "duration; get_infected_nodes removes initially recovered nodes before taking the out-component; the initially infected set "
-  "is the requested one (None-tests, never truthiness; single node wrapped).",
+  "is the requested one (None-tests, never truthiness; single node wrapped); the full-data histories on which the property is "
+  "observed are rebuilt from every recorded infection and every recorded recovery (HIST). "
+  "In every function reachable from the property's entry points no dict.fromkeys(keys, v) / [v]*n hands one mutable object or one random draw to all keys (SHARE).",
   "Not decided: the Dijkstra argument itself, tie handling inside the heap beyond the counter.",
   "ast: control-context facts for scheduling guards (H-guard), queue discipline (R13), role agreement of builders (R14), R1"),
  "C12": _m(
@@ -117,7 +131,8 @@ META = {
   "Bernoulli test per (infectious, susceptible neighbour) contact with the susceptibility test first; infection <=> flag "
   "cleared <=> nS -= 1; generation hand-over; one row per step by +1 in time under t[-1] < tmax; initial row sums to N and "
   "counts initial_recovereds; percolate_network keeps G's nodes and draws once per edge; the initial set is the requested one "
-  "(None-tests, never truthiness).",
+  "(None-tests, never truthiness). "
+  "In every function reachable from the property's entry points no dict.fromkeys(keys, v) / [v]*n hands one mutable object or one random draw to all keys (SHARE).",
   "Not decided: transition probabilities as numbers.",
   "ast: call-binding (R1), contact-loop shape rules (DISC), row rules (R9), R14"),
  "C13": _m(
@@ -125,7 +140,8 @@ META = {
   "attempts inside the target's infectious period dropped only under status[v]=='I'; remaining attempts re-queued on every "
   "path (outside the infection block) with the same (source, target); adapter tuple binds the user functions' args without "
   "crossing; queue discipline; +-1 rows; per-node histories rebuilt by _transform_to_node_history_ (HIST); the requested "
-  "initial set is the one used (TRUTHY, R10a/b).",
+  "initial set is the one used (TRUTHY, R10a/b). "
+  "In every function reachable from the property's entry points no dict.fromkeys(keys, v) / [v]*n hands one mutable object or one random draw to all keys (SHARE).",
   "Not decided: equality with the reference history; ordering of user delay lists.",
   "ast: attempt-chaining rules over reaching definitions (H-chain), role binding, protocol binding (H-proto), R13, R9"),
  "C14": _m(
